@@ -6,7 +6,7 @@ from .. import inputs
 from . import geom
 
 SPEC = dict(
-    lean_modules=['SmVerif.Props.C18'],
+    lean_modules=['SmVerif.Props.C18', 'SmVerif.Props.VecPreds'],
     groups=['Transforms3d', 'Transforms2d', 'TransformsNd', 'Vectors', 'Twists'],
     expected_untranslatable=('trinterp_T', 'trinterp_T_nostart'),
     partial=['accessor semantics (pitch, pole, line, isprismatic/isrevolute) and the traced constructors are proved; float agreement is explored'],
